@@ -30,6 +30,7 @@ pub fn hyper_small_cases(nmax: u64) -> Vec<Case> {
                     in_law: false,
                     pdf: None,
                     law_note: "",
+                    abs_gran: 0.0,
                 });
             }
         }
